@@ -24,7 +24,8 @@ SHRINK_LISTS = ("ops",)
 ISOLATE = "run"         # every run in a forked child: the subject is process-global state
 PROBES = {"C06": ["inject:pypose-frame", "inject:user-frame", "inject:torch-frame", "inject:other-frame", "user-raise",
                   "user-raise:BaseException", "nested>=2", "reused-wrapper", "reused-wrapper-inside-context", "op-raised", "op-completed-despite-fault",
-                  "mode-B-fork", "enumerated-all-k", "monitor:api-call", "monitor:strided-args"]}
+                  "mode-B-fork", "enumerated-all-k", "monitor:api-call", "monitor:strided-args",
+                  "foreign:ctrlsim", "foreign:imusim", "foreign:clocksim", "foreign:lqrsim", "foreign:filtersim", "foreign:optsim", "boundary-calls", "boundary-recorded-arguments"]}
 
 # identity snapshot of the three patched attributes, taken at import (before any retain_ltype ran in this process)
 ORIG = {"make_dual": _fa.make_dual, "_wrap_tensor_for_grad": _et._wrap_tensor_for_grad, "_add_batch_dim": _vm._add_batch_dim}
@@ -119,7 +120,10 @@ def _region_body(fn, *a):
 # generation
 
 OPS = ("jacrev_log", "jacrev_act0", "jacrev_act1", "jacrev_exp", "jacrev_chain", "with_vmap", "with_jacfwd",
-       "with_jacrev", "nested_vmap", "reuse", "reuse_inside", "jacrev_aux", "jacrev_chunk", "plain", "api", "api2")
+       "with_jacrev", "nested_vmap", "reuse", "reuse_inside", "jacrev_aux", "jacrev_chunk", "plain", "api", "api2", "foreign")
+# the workloads of the other simulators, executed under the boundary monitor (core/boundary.py): (engine, property, weight)
+FOREIGN = (("ctrlsim", "C20", 3), ("imusim", "C16", 2), ("clocksim", "C15", 3), ("lqrsim", "C14", 3), ("filtersim", "C13", 3),
+           ("optsim", "C08", 1), ("optsim", "C07", 1))
 
 
 def generate(seed, tier, prop="C06"):
@@ -129,7 +133,7 @@ def generate(seed, tier, prop="C06"):
     ro = rng.stream(seed, "ops")
     n = ro.randint(1, 8)
     w = {k: ro.choice([0, 1, 2]) for k in OPS}
-    w["plain"] = min(w["plain"], 1); w["api"] = min(w["api"], 1); w["api2"] = min(w["api2"], 1)
+    w["plain"] = min(w["plain"], 1); w["api"] = min(w["api"], 1); w["api2"] = min(w["api2"], 1); w["foreign"] = min(w["foreign"], 1)
     names = [k for k in OPS if w[k]] or ["jacrev_log"]
     pf = ro.choice([0.3, 0.6, 0.9])
     ops = []
@@ -139,7 +143,10 @@ def generate(seed, tier, prop="C06"):
             op["depth"] = ro.choice([2, 3])
         if op["op"] == "reuse":
             op["times"] = ro.randint(2, 5)
-        if op["op"] not in ("plain", "api", "api2") and ro.random() < pf:
+        if op["op"] == "foreign":
+            e_, p_, _ = ro.choices(FOREIGN, [f_[2] for f_ in FOREIGN])[0]
+            op.update({"engine": e_, "prop": p_, "seed": rng.H(seed, "foreign", i)})
+        if op["op"] not in ("plain", "api", "api2", "foreign") and ro.random() < pf:
             x = ro.random()
             if x < 0.3:
                 op["fault"] = {"kind": "user-raise", "exc": ro.choice(sorted(EXC)), "at": ro.choice([1, 1, 1, 2, 3])}
@@ -166,6 +173,18 @@ def simplify(plan):
         if c[k] != v:
             cands.append({**plan, "config": dict(c, **{k: v})})
     for i, o in enumerate(plan["ops"]):
+        if o["op"] == "foreign":
+            # shrink the other simulator's operation list: halves first, then single operations
+            ids = o.get("keep")
+            if ids is None:
+                ids = [q["id"] for q in _foreign_plan(o)["ops"]]
+            trials = []
+            if len(ids) > 1:
+                trials += [ids[:len(ids) // 2], ids[len(ids) // 2:]]
+                trials += [ids[:j] + ids[j + 1:] for j in range(min(len(ids), 12))]
+            for keep in trials:
+                ops = [dict(q) for q in plan["ops"]]; ops[i]["keep"] = keep
+                cands.append({**plan, "ops": ops})
         if "fault" in o:
             ops = [dict(q) for q in plan["ops"]]
             if o["fault"].get("all"):
@@ -584,6 +603,61 @@ def _api_monitor2(seed, i, fam, n, out):
         _gaps_clean(name, i)
 
 
+def _foreign_plan(o):
+    import importlib
+    from ..core import runner
+    eng = importlib.import_module(runner.ENGINES[o["engine"]])
+    fplan = eng.generate(o["seed"], "quick", o["prop"])
+    if o.get("keep") is not None:
+        keep = set(o["keep"])
+        fplan["ops"] = [q for q in fplan["ops"] if q["id"] in keep]
+    return fplan
+
+
+def _foreign(o, out):
+    """One run of another simulator's workload (its own plan generator, its own driver code, the real library) in a
+    forked child in which the public surface of pypose is wrapped by the boundary monitor.  The other simulator's
+    oracles are not consulted here (they belong to other properties); the verdict is the monitor's alone."""
+    import importlib
+    from ..core import runner, boundary
+    from ..core.outcome import Outcome
+    from ..core.trace import Trace
+    eng = importlib.import_module(runner.ENGINES[o["engine"]])
+    fplan = _foreign_plan(o)
+
+    def child():
+        mon = boundary.install()
+        fo, ftr = Outcome(), Trace()
+        torch.manual_seed(rng.H(fplan.get("seed", 0), "torch-global") & 0x7FFFFFFF)
+        ended = "ok"
+        try:
+            eng.execute(fplan, o["prop"], fo, ftr)
+        except BaseException as e:
+            if isinstance(e, (MemoryError, SystemExit)):
+                raise
+            ended = type(e).__name__
+        mon.active = False
+        mon.end()
+        return {"ended": ended, "calls": len(mon.calls), "recorded": len(mon.reg), "findings": mon.findings[:5],
+                "kinds": sorted(set(c_.split(" ")[0] for c_ in mon.calls))[:40]}
+    r_ = _forked(child)
+    if "harness" in r_:
+        raise RuntimeError("foreign workload child: " + r_["harness"])
+    out.probe("foreign:" + o["engine"])
+    out.probe("boundary-calls", r_["calls"])
+    out.probe("boundary-recorded-arguments", r_["recorded"])
+    if r_["ended"] not in ("ok",):
+        out.probe("foreign:ended-by:" + ("Violation" if r_["ended"] == "Violation" else "exception"))
+    for k_ in r_["kinds"]:
+        out.sigs.add("boundary|" + k_)
+    if r_["findings"]:
+        label, k, where = r_["findings"][0]
+        raise Violation("C06.mutation", "workload of %s (%s): the tensor handed to %s (boundary call #%d) had other values %s; "
+                        "%d such change(s) in this run" % (o["engine"], o["prop"], label, k, where, len(r_["findings"])),
+                        o["id"], "mutation:boundary:%s:%s" % (o["engine"], label.split(" ")[0]))
+    return r_
+
+
 def _check_after(out, o, what):
     left = _patch_state()
     if left:
@@ -657,6 +731,14 @@ def execute(plan, prop, out, tr):
     for o in plan["ops"]:
         i = o["id"]
         BOMB.count, BOMB.at, BOMB.exc = 0, None, None
+        if o["op"] == "foreign":
+            r_ = _foreign(o, out)
+            tr.ev("foreign", i, o["engine"], o["prop"], r_["calls"], r_["recorded"], r_["ended"])
+            _check_after(out, o, "foreign workload")
+            out.ops += 1
+            continue
+        if o["op"] in ("api", "api2") and os.environ.get("PPSIM_NO_API_MONITORS"):
+            continue        # experiment switch: how much does the boundary monitor see on its own
         if o["op"] == "api2":
             _api_monitor2(s, i, fam, n, out)
             _check_after(out, o, "api monitor 2")
